@@ -96,7 +96,7 @@ class Check:
         os.makedirs(BUILD, exist_ok=True)
         os.makedirs(EVID, exist_ok=True)
         os.makedirs(REPLAY, exist_ok=True)
-        for old in glob.glob(os.path.join(REPLAY, pid + "-*.json")):
+        for old in ([] if replay else glob.glob(os.path.join(REPLAY, pid + "-*.json"))):
             try:
                 os.remove(old)
             except OSError:
@@ -380,7 +380,7 @@ class Check:
                        rejected=len(bad), wall_s=round(time.time() - t, 1))
         self.tracesum.append(summary)
         self.log("trace %s [%s]: %d lines, %d rejected, %.1fs" % (module, summary["label"], total, len(bad), summary["wall_s"]))
-        return dict(total=total, consumed=consumed, bad=bad, lines=lines)
+        return dict(total=total, consumed=consumed, bad=bad, lines=lines, module=module, cfg=cfg)
 
     # -------------------------------------------------------------- recorders
     def record(self, binary, args=(), out=None, env=None, timeout=900, mpi=None, ok_rc=(0,),
@@ -472,7 +472,33 @@ class Check:
             sig = {"stage": stage or what, "clauses": ",".join(clauses)}
             if sigfn:
                 sig.update(sigfn(rec, clauses) or {})
-            self.violation("%s: %s" % (what, ",".join(clauses)), {"line": rec, "lineno": ln, "clauses": clauses}, sig)
+            self.violation("%s: %s" % (what, ",".join(clauses)),
+                           {"line": rec, "lineno": ln, "clauses": clauses, "trace_module": res.get("module"), "trace_cfg": res.get("cfg")}, sig)
+
+    def do_replay(self):
+        """--replay <file>: re-judge the recorded case (stateless trace line) with its trace spec,
+        or re-run the recorder command that crashed. Exit 1 + VIOLATION line if it repeats."""
+        rp = json.load(open(self.replay))
+        data = rp.get("data", {})
+        if "line" in data and data.get("trace_module"):
+            t = self.path("replay.ndjson")
+            open(t, "w").write(json.dumps(data["line"]) + "\n")
+            res = self.tlc_trace(data["trace_module"], t, cfg=data.get("trace_cfg"), label="replay")
+            if res["bad"]:
+                print("VIOLATION property=%s replay=%s  (replayed: %s)" % (self.pid, self.replay, ",".join(res["bad"][0][1])))
+                return 1
+            print("OK property=%s replay accepted (the recorded case no longer violates)" % self.pid)
+            return 0
+        if "cmd" in data:
+            env = dict(data.get("env", {}))
+            rc, so, err = self.sh(data["cmd"], env=env, timeout=1800, stdout=self.path("replay.out"))
+            if rc != 0:
+                print("VIOLATION property=%s replay=%s  (replayed: recorder rc=%s)" % (self.pid, self.replay, rc))
+                return 1
+            print("OK property=%s replay: command completed normally" % self.pid)
+            return 0
+        print("ERROR property=%s replay file has nothing replayable" % self.pid, file=sys.stderr)
+        return 2
 
     def drift(self, what):
         self.drifts.append(what)
